@@ -1,13 +1,15 @@
 (* Props/C15.v — property C15: every rejection is a well-formed, correctly located error.
    Statements only; proofs in Proofs/ErrorPos.v (UTF-8, char_span, translate_position,
-   rendering), Proofs/ErrorRange.v (every parser keeps its cursor inside the document) and
-   Proofs/ErrorMsg.v (which errors can carry an empty message).
+   rendering), Proofs/ErrorRange.v (every parser keeps its cursor inside the document),
+   Proofs/ErrorMsg.v (which errors of the document parser can carry an empty message) and
+   Proofs/EoiMsg.v (the same for the stand-alone value / key / key-path entry points, which run
+   `terminated(P, end_of_input)`; Proofs/Eoi.v relates them to `P.parse`).
 
    Offsets: `nat` in Model/Error.v and Spec/Position.v, `N` for the parser's cursor.
    The serde half of the property (deserialization errors carry the offending value's span or
    its key path) is an oracle on the implementation only (lib/props/c15.py, `deerr`). *)
 From TV Require Import Base.Prelude Base.Utf8 Base.Winnow Model.Tree Model.Parse Model.Document Model.Error
-  Spec.Position Proofs.ErrorPos Proofs.ErrorRange Proofs.ErrorMsg.
+  Spec.Position Proofs.ErrorPos Proofs.ErrorRange Proofs.ErrorMsg Proofs.Eoi Proofs.EoiMsg.
 
 (* The line and column computed by translate_position are the specification's, for every
    character boundary of a valid text including the end of input (with and without a final
@@ -86,6 +88,80 @@ Theorem C15_message_refuted_array :
 Proof. exact message_refuted_array_cr. Qed.
 Print Assumptions C15_message_refuted_array.
 
+(* The same for the stand-alone entry points (Value::from_str, Key::from_str, Key::parse), which
+   run `terminated(P, end_of_input)`.  A complete value / key followed by more input is rejected
+   with the context "end of input" (it used to be rejected with an empty message) ... *)
+Theorem C15_message_trailing : forall (A : Type) (p : parser A) (s : bytes) (a : A) (i : input),
+  p (new_input s) = Ok a i -> rest i <> [] ->
+  parse_all (terminated_eoi p) s = Failed (mkErr None true) (pos i)
+  /\ parse_all p s = Failed err0 (pos i).
+Proof. exact (@parse_all_eoi_trailing_both). Qed.
+Print Assumptions C15_message_trailing.
+
+(* ... and nothing else changes: same accepted inputs and results, same panics (none), and a
+   rejection keeps its offset and cause and never loses a context. *)
+Theorem C15_eoi_same_accepted : forall (A : Type) (p : parser A) (s : bytes) (a : A),
+  parse_all (terminated_eoi p) s = Done a <-> parse_all p s = Done a.
+Proof. exact (@parse_all_eoi_done). Qed.
+Print Assumptions C15_eoi_same_accepted.
+
+Theorem C15_eoi_same_offset : forall (A : Type) (p : parser A) (s : bytes) (e : perr) (at_ : N),
+  parse_all (terminated_eoi p) s = Failed e at_ ->
+  exists e0, parse_all p s = Failed e0 at_ /\ e_cause e = e_cause e0 /\ (e_ctx e0 = true -> e_ctx e = true).
+Proof. exact (@parse_all_eoi_failed). Qed.
+Print Assumptions C15_eoi_same_offset.
+
+(* Value::from_str: the message of a rejected value is non-empty outside the same known class as
+   for documents (a bare CR at the error offset or right before it) ... *)
+Theorem C15_message_value : forall (s : bytes) (e : perr) (at_ : option N),
+  bare_cr_near_o s at_ = false -> parse_value_raw s = PErr e at_ ->
+  e_cause e <> None \/ e_ctx e = true.
+Proof. exact value_message. Qed.
+Print Assumptions C15_message_value.
+
+(* ... and the premise is needed: the value  [ CR ]  (the CR right before the offset). *)
+Theorem C15_message_value_refuted :
+  exists s e at_, parse_value_raw s = PErr e (Some at_) /\ e_cause e = None /\ e_ctx e = false
+                  /\ bare_cr_near s at_ = true.
+Proof. exact value_message_refuted. Qed.
+Print Assumptions C15_message_value_refuted.
+
+(* Key::parse (a dotted key path): every rejection has a message; no side condition. *)
+Theorem C15_message_key_path : forall (s : bytes) (e : perr) (at_ : option N),
+  parse_key_path s = PErr e at_ -> e_cause e <> None \/ e_ctx e = true.
+Proof. exact key_path_message. Qed.
+Print Assumptions C15_message_key_path.
+
+(* Key::from_str (one simple key): every rejection has a message PROVIDED the input starts with
+   a byte a simple key can start with (quotation mark, apostrophe, unquoted-key character); no
+   bare-CR premise is needed. *)
+Theorem C15_message_key : forall (s : bytes) (e : perr) (at_ : option N),
+  key_head_b s = true -> parse_key s = PErr e at_ -> e_cause e <> None \/ e_ctx e = true.
+Proof. exact key_message. Qed.
+Print Assumptions C15_message_key.
+
+(* The side condition is exact — the finding C15-empty-message-key-start: an input that is empty
+   or starts with any other byte is rejected at offset 0 with an EMPTY message (simple_key has no
+   context of its own; neither `peek(any)` nor `take_while(1.., UNQUOTED_CHAR)` attaches one). *)
+Theorem C15_message_key_empty : forall (s : bytes),
+  key_head_b s = false -> parse_key s = PErr err0 (Some 0%N).
+Proof. exact key_message_empty. Qed.
+Print Assumptions C15_message_key_empty.
+
+(* Witnesses: the empty input ... *)
+Theorem C15_message_key_refuted :
+  exists s e at_, parse_key s = PErr e at_ /\ e_cause e = None /\ e_ctx e = false
+                  /\ bare_cr_near_o s at_ = false.
+Proof. exact key_message_refuted. Qed.
+Print Assumptions C15_message_key_refuted.
+
+(* ... and the one-byte input `!`. *)
+Theorem C15_message_key_refuted_bang :
+  exists s e at_, parse_key s = PErr e at_ /\ e_cause e = None /\ e_ctx e = false
+                  /\ bare_cr_near_o s at_ = false /\ s <> [].
+Proof. exact key_message_refuted_bang. Qed.
+Print Assumptions C15_message_key_refuted_bang.
+
 (* All of it for one rejected document. *)
 Theorem C15_located : forall (s : bytes) (e : perr) (at_ : N),
   utf8_valid_b s = true -> parse_document s = PErr e (Some at_) ->
@@ -122,3 +198,31 @@ Example C15_ex_eof_newline :
   /\ translate_position s 8 = (0, 8)
   /\ (lines_before s 8, chars_since_line_start s 8) = (0, 8).
 Proof. vm_compute. repeat split; eauto. Qed.
+
+(* the stand-alone entry points: the value `1 2`, the key `a b`, the key path `a.b c` are rejected
+   where the complete value / key ends, meet the hypotheses of C15_message_value / _key /
+   _key_path, and carry the context (before the change: err0, an empty message) *)
+Example C15_ex_value_trailing :
+  let s := [x31; x20; x32] in
+  parse_value_raw s = PErr (mkErr None true) (Some 1%N) /\ bare_cr_near_o s (Some 1%N) = false
+  /\ lift_outcome (parse_all value_ s) = PErr err0 (Some 1%N).
+Proof. vm_compute. repeat split. Qed.
+
+Example C15_ex_key_trailing :
+  let s := [x61; x20; x62] in
+  parse_key s = PErr (mkErr None true) (Some 1%N) /\ key_head_b s = true
+  /\ lift_outcome (parse_all simple_key s) = PErr err0 (Some 1%N).
+Proof. vm_compute. repeat split. Qed.
+
+Example C15_ex_key_path_trailing :
+  let s := [x61; x2e; x62; x20; x63] in
+  parse_key_path s = PErr (mkErr None true) (Some 4%N)
+  /\ lift_outcome (parse_all key_ s) = PErr err0 (Some 4%N).
+Proof. vm_compute. repeat split. Qed.
+
+(* an unterminated basic string as a key meets key_head_b and is rejected with a context from
+   inside simple_key (not from end_of_input) *)
+Example C15_ex_key_unterminated :
+  let s := [x22; x61] in
+  key_head_b s = true /\ parse_key s = PErr (mkErr None true) (Some 2%N).
+Proof. vm_compute. repeat split. Qed.
